@@ -5,6 +5,7 @@ use crate::error::{Error, ErrorCode};
 
 /// Custom errors: any 16-bit number, class by century.
 #[kani::proof]
+#[kani::unwind(8)]
 pub fn esr_mask_custom() {
     let code: i16 = kani::any();
     let e = ErrorCode::Custom(code, b"x");
@@ -22,6 +23,7 @@ pub fn esr_mask_custom() {
 /// Standard errors: looking a code up yields the error that reports that same code, and its
 /// ESR bit is the class bit of that code.
 #[kani::proof]
+#[kani::unwind(8)]
 pub fn get_error_lookup() {
     let code: i16 = kani::any();
     kani::cover!(ErrorCode::get_error(code).is_some() && code == -350);
@@ -38,6 +40,7 @@ pub fn get_error_lookup() {
 /// The injected function contract on `ErrorCode::esr_mask`
 /// (`ensures result == spec_class(self.get_code())`) for an arbitrary error value.
 #[kani::proof_for_contract(crate::error::ErrorCode::esr_mask)]
+#[kani::unwind(8)]
 pub fn esr_mask_contract() {
     let code: i16 = kani::any();
     let e = if kani::any() {
@@ -55,6 +58,7 @@ pub fn esr_mask_contract() {
 /// (bit 5, -1xx), value faults are execution errors (bit 4, -2xx).  The numbers are those of
 /// SCPI-99 Vol. 1 21.8.
 #[kani::proof]
+#[kani::unwind(8)]
 pub fn library_errors_have_their_standard_class() {
     macro_rules! chk {
         ($v:ident, $code:expr) => {
